@@ -2,6 +2,7 @@ package vec
 
 import (
 	"fmt"
+	"math"
 	"testing"
 
 	"verif/harness/stats"
@@ -90,4 +91,29 @@ func TestC33_Known_BigDataSecondRead(t *testing.T) {
 	knownCase(t, slugBigData,
 		"ContentSize=BigData: Upsert(k19) Optimize, then in one transaction Get(k19) Upsert(k02) Get(k19): the second Get fails with 'unexpected end of JSON input' (stale slot pointer in the item action tracker skips the value fetch)",
 		script{Cfg: caseCfg{Dim: 2, NIDs: 20, Mode: 0, Content: 2}, Ops: []op{up(it("k19", 0, 1, 1, 0)), {K: "O"}, {K: "G", ID: "k19"}, up(it("k02", 0, 2, 0, 1)), {K: "G", ID: "k19"}}})
+}
+
+// TestC33_LargeIndexOptimize (always on): 230 and 450 items - more than one of Optimize's internal batches of 200 -
+// are stored in one batch, committed and optimized; afterwards every id must be gettable with its vector and payload
+// and be the best hit of a query for its own vector, and Count must equal the number of items.
+func TestC33_LargeIndexOptimize(t *testing.T) {
+	rec := stats.For("C33")
+	for _, n := range []int{230, 450} {
+		var items []itemJ
+		for i := 0; i < n; i++ {
+			// distinct directions in 3 dimensions
+			a := float64(i) * 0.0137
+			items = append(items, itemJ{ID: fmt.Sprintf("k%04d", i), V: []float32{float32(math.Cos(a)), float32(math.Sin(a)), float32(i%7) * 0.01}, P: pay{Cat: i % 5, Rev: 1}})
+		}
+		s := script{Cfg: caseCfg{Dim: 3, NIDs: n, Mode: 0}, Ops: []op{{K: "B", Items: items}, {K: "R"}, {K: "O"}, {K: "X"}, {K: "C"}}}
+		for i := 0; i < n; i += 17 {
+			s.Ops = append(s.Ops, op{K: "G", ID: items[i].ID}, op{K: "Q", Q: items[i].V, Kn: 1})
+		}
+		// the ids beyond the first batch in particular
+		for i := 200; i < n; i += 9 {
+			s.Ops = append(s.Ops, op{K: "G", ID: items[i].ID})
+		}
+		runScript(t, s, true)
+		rec.Case(fmt.Sprintf("large index %d items: batch, commit, optimize, read back", n), true, "largeIndexOptimize")
+	}
 }
